@@ -66,8 +66,14 @@ var IntType = &ScalarType{
 		}
 		return nil
 	},
-	VariableValueCoercion: coerceInt,
-	ResultCoercion:        coerceInt,
+	VariableValueCoercion: func(v interface{}) interface{} {
+		if _, ok := v.(bool); ok {
+			// booleans may be coerced to integers in results, but are not integer input values
+			return nil
+		}
+		return coerceInt(v)
+	},
+	ResultCoercion: coerceInt,
 }
 
 func coerceFloat(v interface{}) interface{} {
@@ -121,8 +127,14 @@ var FloatType = &ScalarType{
 		}
 		return nil
 	},
-	VariableValueCoercion: coerceFloat,
-	ResultCoercion:        coerceFloat,
+	VariableValueCoercion: func(v interface{}) interface{} {
+		if _, ok := v.(bool); ok {
+			// booleans may be coerced to floats in results, but are not numeric input values
+			return nil
+		}
+		return coerceFloat(v)
+	},
+	ResultCoercion: coerceFloat,
 }
 
 func coerceString(v interface{}) interface{} {
